@@ -115,6 +115,85 @@ def split_pair(rng, maxs=4, maxr=9, sigma=SIGMA_U, keep=0.55):
         fin += [2 * q + i for i in (0, 1) if rng.random() < 0.8] or [2 * q]
     return a, TA(fin, rules)
 
+SIGMA_K = [(0, 0), (1, 0), (7, 0), (2, 1), (3, 2), (5, 2), (6, 2)]     # a/0 b/0 c/0 g/1 f/2 h/2 k/2
+
+def defective_copies_pair(rng, maxs=4, maxr=9, sigma=SIGMA_K, ncopies=None):
+    """A random and cyclic; B := 2-3 internally coherent copies of A, each with ONE leaf rule replaced by another leaf symbol (or dropped, or
+    intact), whose root rules (rules of A into a final state) survive only for some copies (coherent, occasionally with children from mixed
+    copies). L(A) <= L(B) then depends on whether, for every root rule, some surviving combination is free of defects below: the downward
+    checkers meet a cyclic hypothesis inside a copy, a defect found late that refutes it, an alternative copy that rescues the rule, and the
+    same sub-goal again from another root rule - the shape on which positive answers cached under a hypothesis must not outlive it."""
+    n = 3 if rng.random() < 0.6 else rng.randint(3, maxs)
+    a = rand_ta(rng, n, rng.randint(5, maxr), sigma=sigma, pfinal=0.0, leafbias=0.3)
+    st = sorted(a.states()) or [0]
+    root = rng.choice(st)
+    a.finals = [root]
+    for _ in range(rng.randint(1, 2)):          # make sure there are binary root rules over states with rules
+        f = rng.choice([s for s in sigma if s[1] == 2])[0]
+        a.rules.append((f, root, (rng.choice(st), rng.choice(st))))
+    k = ncopies or (2 if rng.random() < 0.7 else 3)
+    leaves_syms = [s[0] for s in sigma if s[1] == 0]
+    leafrules = [r for r in a.rules if not r[2]]
+    rules = []
+    for i in range(k):
+        defect = rng.choice(leafrules) if leafrules and rng.random() < 0.75 else None
+        mode = rng.random()
+        for (f, p, cs) in a.rules:
+            if p == root and cs: continue                     # root rules are distributed below
+            if (f, p, cs) == defect:
+                if mode < 0.7: rules.append((rng.choice([x for x in leaves_syms if x != f] or [f]), p * k + i, ()))
+                continue
+            rules.append((f, p * k + i, tuple(c * k + i for c in cs)))
+    for (f, p, cs) in a.rules:
+        if not (p == root and cs): continue
+        opts = []
+        for i in range(k):
+            if rng.random() < 0.6: opts.append((i, tuple(c * k + i for c in cs)))
+        if rng.random() < 0.25: opts.append((rng.randrange(k), tuple(c * k + rng.randrange(k) for c in cs)))
+        if not opts: opts.append((rng.randrange(k), tuple(c * k + rng.randrange(k) for c in cs)))
+        for (i, o) in opts: rules.append((f, root * k + i, o))
+    b = TA([root * k + i for i in range(k)], rules)
+    return a, b
+
+def coinductive_trap_pair(rng):
+    """The shape on which a downward (coinductive) inclusion check must not keep positive answers that were obtained under a hypothesis:
+    A has a cycle p -f-> (q, r), q -g-> (p); B consists of 2-3 coherent copies of A of which one is defective below r (another leaf), so
+    that (q, {Q}) is answered 'holds' only under the hypothesis (p, {P}), which is refuted afterwards at r; the root rule h(p, t) is
+    rescued by an intact copy, and a second root rule k(q, t) asks for (q, {Q}) again, this time decisively. Child positions, symbol codes,
+    which copies carry which root rules, the position of the defect, extra rules and the numbering are random; the truth varies."""
+    leafs = [0, 1, 7]; rng.shuffle(leafs); la, lc, ld = leafs
+    bins = [3, 5, 6]; rng.shuffle(bins); f, h, k = bins
+    g = 2
+    P, Q, R, T, S = range(5)
+    def pos(x, y): return (x, y) if rng.random() < 0.5 else (y, x)
+    arules = [(f, P, pos(Q, R)), (g, Q, (P,)), (la, Q, ()), (lc, R, ()), (ld, T, ()), (h, S, pos(P, T)), (k, S, pos(Q, T))]
+    for _ in range(rng.choice([0, 0, 1, 2])):
+        sy, ar = rng.choice([(la, 0), (lc, 0), (g, 1), (f, 2), (h, 2)])
+        arules.append((sy, rng.choice([P, Q, R, T]), tuple(rng.choice([P, Q, R, T]) for _ in range(ar))))
+    a = TA([S], arules)
+    kc = 2 if rng.random() < 0.7 else 3
+    bad = rng.randrange(kc)
+    where = R if rng.random() < 0.7 else rng.choice([Q, T, R])
+    brules = []
+    for i in range(kc):
+        for (sy, p, cs) in arules:
+            if p == S: continue
+            if i == bad and not cs and p == where:
+                if rng.random() < 0.8: brules.append((rng.choice([x for x in (la, lc, ld) if x != sy]), p * kc + i, ()))
+                continue
+            brules.append((sy, p * kc + i, tuple(c * kc + i for c in cs)))
+    for (sy, p, cs) in arules:
+        if p != S: continue
+        first = (sy == h)
+        for i in range(kc):
+            keep = rng.random() < (0.85 if first else (0.8 if i == bad else 0.35))
+            if keep: brules.append((sy, S * kc, tuple(c * kc + i for c in cs)))
+    b = TA([S * kc], brules)
+    rng.shuffle(a.rules); rng.shuffle(b.rules)
+    if rng.random() < 0.5: a, _ = permute_states(rng, a)
+    if rng.random() < 0.7: b, _ = permute_states(rng, b)
+    return a, b
+
 def permute_states(rng, a, extra=0, sparse=False):
     st = sorted(a.states())
     if sparse:
